@@ -244,11 +244,30 @@ func (v *Vue) RenderFragment(w io.Writer, filename string, data any) error {
 	return v.renderNodesWithContext(vueCtx, w, dom)
 }
 
+// errWriter remembers the first write error, so that the serialiser (which ignores the result
+// of individual writes) can still report that the destination failed.
+type errWriter struct {
+	w   io.Writer
+	err error
+}
+
+func (e *errWriter) Write(p []byte) (int, error) {
+	if e.err != nil {
+		return 0, e.err
+	}
+	n, err := e.w.Write(p)
+	if err != nil {
+		e.err = err
+	}
+	return n, err
+}
+
 func (v *Vue) render(w io.Writer, nodes []*html.Node) error {
+	ew := &errWriter{w: w}
 	for _, node := range nodes {
-		if err := renderNode(w, node, 0); err != nil {
+		if err := renderNode(ew, node, 0); err != nil {
 			return err
 		}
 	}
-	return nil
+	return ew.err
 }
